@@ -925,3 +925,176 @@ Definition a_case_holds (strict : bool) (c : acase) : bool :=
 Definition c15_app_violations (cases : list acase) : list Z := bad_indices (fun c => negb (a_case_holds false c)) cases.
 Definition c15_app_strict_violations (cases : list acase) : list Z := bad_indices (fun c => negb (a_case_holds true c)) cases.
 Definition c15_app_all (cases : list acase) : list Z := bad_indices (fun _ => true) cases.
+
+(* ================================================================ frames that are laid out twice
+
+   The frame case of App.Run lays the root widget out, calls mh.update on that layout and, when
+   an enter/leave handler called from there asked for a redraw, lays the root out a SECOND time;
+   the second layout is rendered, given to updatePath and stored as lastFrame, the first one is
+   thrown away (the hit list stays the one of the first layout).  A widget tree may change
+   between the two layouts (the hover handler changed the application's state):
+   [FFrame2 t1 t2] is a tick in which the root draws t1 at the first and t2 at the second
+   layout.  [frame2 .. t t] is [frame .. t]. *)
+Inductive finput :=
+| FI (i : input)
+| FFrame2 (t1 t2 : tree).
+
+Section Oracle2.
+
+Variable oracle : list entry -> wid -> event -> phase -> cmd.
+Variable capturer : wid -> bool.
+
+Definition frame2 (fuel : nat) (s : st) (t1 t2 : tree) : option st :=
+  if negb (f_redraw (co s)) then Some s
+  else
+    let s0 := with_co s (set_redraw (co s) false) in
+    obind (mouse_update oracle fuel s0 t1)
+      (fun s1 =>
+         let t := if f_redraw (co s1) then t2 else t1 in
+         let s2 := with_co s1 (set_debug (set_refresh (set_redraw (co s1) false) false) false) in
+         let t' := sort_tree t in
+         obind (update_path oracle fuel s2 t') (fun s3 => Some (with_frame s3 t'))).
+
+(* how often the root widget is laid out in the tick: 0 (no redraw pending), 1 or 2 *)
+Definition layouts (fuel : nat) (s : st) (t1 : tree) : option Z :=
+  if negb (f_redraw (co s)) then Some 0
+  else obind (mouse_update oracle fuel (with_co s (set_redraw (co s) false)) t1)
+         (fun s1 => Some (if f_redraw (co s1) then 2 else 1)).
+
+Definition fstep (fuel : nat) (s : st) (i : finput) : option st :=
+  match i with
+  | FI i => step oracle capturer fuel s i
+  | FFrame2 t1 t2 => frame2 fuel s t1 t2
+  end.
+
+Definition f_is_tick (i : finput) : bool := match i with FI i => is_tick i | FFrame2 _ _ => true end.
+
+(* a history of App.Run with such ticks (returns as soon as shouldQuit is set after an event) *)
+Fixpoint frun (fuel : nat) (s : st) (l : list finput) : option st :=
+  match l with
+  | [] => Some s
+  | i :: l' =>
+      obind (fstep fuel s i)
+        (fun s' => if negb (f_is_tick i) && f_quit (co s') then Some s' else frun fuel s' l')
+  end.
+
+End Oracle2.
+
+(* frames stream (real App.Run): per input the calls seen and the number of layouts of a tick *)
+Definition fobs := (list call3 * Z)%type.
+Definition fcase := (list wid * wid * list cmd * list (finput * fobs))%type.
+
+Definition no_calls (l : list (finput * fobs)) : bool :=
+  forallb (fun x => match fst (snd x) with [] => true | _ => false end) l.
+
+Fixpoint f_replay (script : list cmd) (capt : wid -> bool) (s : st) (l : list (finput * fobs)) : bool :=
+  match l with
+  | [] => true
+  | (i, (oc, lay)) :: l' =>
+      match fstep (script_oracle script) capt (model_fuel script) s i with
+      | None => false
+      | Some s' =>
+          let d := skipn (length (log (co s))) (log (co s')) in
+          list_eqb call3_eqb (map entry_call d) oc &&
+          match i with
+          | FFrame2 t1 _ | FI (IFrame t1) =>
+              option_eqb Z.eqb (layouts (script_oracle script) (model_fuel script) s t1) (Some lay)
+          | _ => lay =? 0
+          end &&
+          (* App.Run returns when shouldQuit is set after an event *)
+          (if negb (f_is_tick i) && f_quit (co s') then no_calls l' else f_replay script capt s' l')
+      end
+  end.
+
+Definition f_case_ok (c : fcase) : bool :=
+  match c with
+  | (capts, rt, script, steps) => f_replay script (capt_of capts) (init_st rt) steps
+  end.
+
+Definition c15_frames_mismatches (cases : list fcase) : list Z := bad_indices (fun c => negb (f_case_ok c)) cases.
+
+(* ---- the property on the observation of a frames history.  The observer knows the inputs, the
+   calls and how often the root was laid out in each tick.  He keeps: the surface tree that was
+   SHOWN last (rendered; None before the first tick), the hover tracker, the log, the holder of
+   the focus (receiver of the last FocusIn) and whether a focus delivery happened since the
+   path was last recomputed, the tick's own deliveries included (guard of the recorded finding
+   stale-path). *)
+Record fspec := mkF {
+  fs_shown : option tree; fs_hv : hov_st; fs_log : list entry; fs_foc : wid; fs_moved : bool; fs_quit : bool
+}.
+
+(* the chain from the App's root to the focused widget in the tree on screen *)
+Definition fs_path (rt : wid) (sp : fspec) : option (list wid) :=
+  match fs_shown sp with
+  | None => if fs_foc sp =? rt then Some [rt] else None
+  | Some t => focus_chain_ws rt t (fs_foc sp)
+  end.
+
+Definition shown_tree (lay : Z) (t1 t2 : tree) : tree := sort_tree (if lay =? 2 then t2 else t1).
+
+Definition f_hov (h : hov_st) (i : finput) (lay : Z) : hov_st :=
+  match i with
+  | FI i => hov_track (negb (lay =? 0)) h i
+  | FFrame2 t1 t2 =>
+      if lay =? 0 then h
+      else mkHov (shown_tree lay t1 t2) (hv_mouse h) (hov_at t1 (hv_mouse h) (hv_set h))
+  end.
+
+Definition f_step_ok (capt : wid -> bool) (rt : wid) (sp : fspec) (i : finput) (d : list entry) (lay : Z) : bool :=
+  let f0 := fs_foc sp in
+  let hv' := f_hov (fs_hv sp) i lay in
+  (* a key is offered capture-target-bubble along the chain of the focused widget in the
+     tree ON SCREEN *)
+  let key_ok (e : event) :=
+    match fs_path rt sp with
+    | Some ws => key_route_obs capt ws f0 e d
+    | None => false
+    end || fs_moved sp in
+  let route_ok :=
+    match i with
+    | FI (IEv e) => is_focus_ev e || key_ok e
+    | FI (IStart _) => key_ok EInit
+    | FI (IMouse c r) => mouse_route_obs capt (hv_frame (fs_hv sp)) c r d
+    | _ => true
+    end in
+  let focus_ok := match focus_chain f0 (focus_log d) with Some _ => true | None => false end in
+  let hover_ok := hover_obs (fun _ => false) (fs_log sp ++ d) (hv_set hv') in
+  let lay_ok :=
+    match i with
+    | FFrame2 _ _ =>
+        (0 <=? lay) && (lay <=? 2) && (negb (lay =? 0) || match d with [] => true | _ => false end)
+    | _ => true
+    end in
+  route_ok && focus_ok && hover_ok && lay_ok.
+
+Definition f_next (sp : fspec) (i : finput) (d : list entry) (lay : Z) : fspec :=
+  let fe := existsb focus_entry d in
+  let keep := (fs_shown sp, fs_moved sp || fe) in
+  let sm :=
+    match i with
+    | FFrame2 t1 t2 => if lay =? 0 then keep else (Some (shown_tree lay t1 t2), fe)
+    | FI (IFrame t) => if lay =? 0 then keep else (Some (sort_tree t), fe)
+    | _ => keep
+    end in
+  mkF (fst sm) (f_hov (fs_hv sp) i lay) (fs_log sp ++ d) (focus_after (fs_foc sp) d) (snd sm)
+      (fs_quit sp || existsb is_quit (rets d)).
+
+Fixpoint f_check (script : list cmd) (capt : wid -> bool) (rt : wid) (sp : fspec) (l : list (finput * fobs)) : bool :=
+  match l with
+  | [] => true
+  | (i, (oc, lay)) :: l' =>
+      let d := attach script (length (fs_log sp)) oc in
+      let sp' := f_next sp i d lay in
+      f_step_ok capt rt sp i d lay &&
+      (* a QuitCmd was returned: App.Run returns after this event, nothing is called any more *)
+      (if negb (f_is_tick i) && fs_quit sp' then no_calls l' else f_check script capt rt sp' l')
+  end.
+
+Definition f_spec_init (rt : wid) : fspec := mkF None (mkHov (Node rt 0 0 []) None []) [] rt false false.
+
+Definition f_case_holds (c : fcase) : bool :=
+  match c with
+  | (capts, rt, script, steps) => f_check script (capt_of capts) rt (f_spec_init rt) steps
+  end.
+
+Definition c15_frames_violations (cases : list fcase) : list Z := bad_indices (fun c => negb (f_case_holds c)) cases.
